@@ -15,6 +15,7 @@ pub mod c09;
 pub mod c10;
 pub mod c11;
 pub mod c12;
+pub mod c12_sched;
 pub mod c15;
 pub mod c16;
 pub mod c17;
